@@ -51,7 +51,7 @@ Section Final.
 
   (* the memory state after the last completed updater, and the Observe values that count *)
   Definition ps_mem_last (rest : list ps_event) (m1 : ps_mem) (j : nat) : ps_mem :=
-    match rest with e :: _ => ps_mem_at alloc e m1 j | [] => m1 end.
+    match rest with e :: _ => ps_mem_at alloc c e m1 j | [] => m1 end.
   Definition ps_ghost_last (rest : list ps_event) (m1 : ps_mem) (G1 : list ps_send) (j : nat) : list ps_send :=
     match rest with e :: _ => ps_ghost_at alloc c e m1 G1 j | [] => G1 end.
 
@@ -126,3 +126,22 @@ Section Final.
     split; [exact Hrun|]. cbn zeta. split; [exact R1|]. split; [exact R2|exact R3].
   Qed.
 End Final.
+
+(* what the theorem says about an interrupted DELETE: until its last call every Observe value
+   sent before still counts, and until the dynamic-resource record goes the resource is part of
+   the memory state that has to come back (with the observers whose records are still there) *)
+Theorem ps_delete_window : forall alloc c name rest m G r j,
+  ps_find name m = Some r ->
+  let p := if ps_del_bump r && (ps_del_value r mod psc_freq c =? 0) then 1%nat else 0%nat in
+  (j < length (ps_ev_calls alloc c (PsEvDel name) m))%nat ->
+  ps_ghost_last alloc c (PsEvDel name :: rest) m G j = G /\
+  ((1 <= j <= p + length (psr_subs r))%nat ->
+   ps_mem_last alloc c (PsEvDel name :: rest) m j =
+   ps_replace (mkRsrc name (psr_observable r) (ps_del_value r) (skipn (j - p) (psr_subs r))) m).
+Proof.
+  intros alloc c name rest m G r j Hf p Hj. unfold ps_ghost_last, ps_mem_last, ps_ghost_at, ps_mem_at. split.
+  - destruct j as [|j']; [reflexivity|].
+    destruct (Nat.leb_spec (length (ps_ev_calls alloc c (PsEvDel name) m)) (S j')); [lia|reflexivity].
+  - intros [H1 H2]. destruct j as [|j']; [lia|]. rewrite Hf. fold p.
+    destruct (Nat.leb_spec (S j') (p + length (psr_subs r))); [reflexivity|lia].
+Qed.
